@@ -185,6 +185,12 @@ def run(ctx):
                 kwargs["s"] = rng.randint(-3, 3) / 2
             if rng.random() < 0.4:
                 kwargs["g"] = np.array([[rng.randint(-4, 4) / 4 for _ in range(ub.dx.shape[1])] for _ in range(nt)])
+            if rng.random() < 0.2:
+                # a user parameter with the NAME of a default one (documented: the user's value replaces the
+                # default in all three form types)
+                kwargs["h"] = rng.choice([0.25, -1.5]) if rng.random() < 0.5 else \
+                    np.array([[rng.randint(1, 8) / 4 for _ in range(ub.dx.shape[1])] for _ in range(nt)])
+                ctx.count("user-parameter-named-h")
             knorm = Form._normalize_asm_kwargs(dict(kwargs), ub)
             knorm_listed = {k: (v if isinstance(v, (int, float)) else v) for k, v in knorm.items()}
             wcomp = w_components(ub, knorm_listed)
